@@ -8,6 +8,7 @@ package provx
 import (
 	"context"
 	"fmt"
+	"sort"
 	"strconv"
 	"strings"
 	"sync"
@@ -53,6 +54,12 @@ type FaultDB struct {
 	ops       []Op
 	// OnTxn is called for transaction events ("begin", "commit", "discard").
 	OnTxn func(ctx context.Context, ev string)
+	// per-pipeline mode (ArmPer): writes are counted, failed and recorded per
+	// pipeline id (the first segment of the entity id in the store key).
+	per     bool
+	perN    map[string]int
+	perFail map[string]int
+	perOps  map[string][]Op
 }
 
 var ErrInjected = cerrors.New("injected store failure")
@@ -77,10 +84,53 @@ func (d *FaultDB) Disarm() []Op {
 	return out
 }
 
+// PipelineOfKey returns the pipeline id a store key belongs to ("" if none).
+func PipelineOfKey(key string) string {
+	for _, p := range []string{"pipeline:instance:", "connector:instance:", "processor:instance:"} {
+		if r, ok := strings.CutPrefix(key, p); ok {
+			if i := strings.Index(r, ":"); i >= 0 {
+				return r[:i]
+			}
+			return r
+		}
+	}
+	return ""
+}
+
+// ArmPer starts recording per pipeline; failAt[pl] = n makes the n-th write
+// under pipeline pl (counted from now) fail, once.
+func (d *FaultDB) ArmPer(failAt map[string]int) {
+	d.mu.Lock()
+	defer d.mu.Unlock()
+	d.per, d.perN, d.perFail, d.perOps = true, map[string]int{}, map[string]int{}, map[string][]Op{}
+	for k, v := range failAt {
+		d.perFail[k] = v
+	}
+}
+
+// DisarmPer stops per-pipeline recording and returns the writes per pipeline.
+func (d *FaultDB) DisarmPer() map[string][]Op {
+	d.mu.Lock()
+	defer d.mu.Unlock()
+	out := d.perOps
+	d.per, d.perN, d.perFail, d.perOps = false, nil, nil, nil
+	if out == nil {
+		out = map[string][]Op{}
+	}
+	return out
+}
+
 func (d *FaultDB) Set(ctx context.Context, key string, value []byte) error {
 	d.mu.Lock()
 	fail := false
-	if d.recording {
+	if d.per {
+		if pl := PipelineOfKey(key); pl != "" {
+			at, armed := d.perFail[pl]
+			fail = armed && at == d.perN[pl]
+			d.perN[pl]++
+			d.perOps[pl] = append(d.perOps[pl], Op{Key: key, Del: value == nil, Failed: fail})
+		}
+	} else if d.recording {
 		fail = d.n == d.failAt
 		d.n++
 		d.ops = append(d.ops, Op{Key: key, Del: value == nil, Failed: fail})
@@ -188,6 +238,18 @@ func NewEnv(life provisioning.LifecycleService, wrapPl func(*pipeline.Service) p
 
 // NewEnvOn is NewEnv on a database of the caller's choice (Env.DB stays nil).
 func NewEnvOn(db database.DB, life provisioning.LifecycleService, wrapPl func(*pipeline.Service) provisioning.PipelineService) *Env {
+	return newEnvOn(db, life, wrapPl, "")
+}
+
+// NewEnvDir is NewEnv with a pipelines directory for provisioning.Service.Init.
+func NewEnvDir(pipelinesDir string) *Env {
+	db := NewFaultDB()
+	e := newEnvOn(db, nil, nil, pipelinesDir)
+	e.DB = db
+	return e
+}
+
+func newEnvOn(db database.DB, life provisioning.LifecycleService, wrapPl func(*pipeline.Service) provisioning.PipelineService, pipelinesDir string) *Env {
 	logger := log.Nop()
 	e := &Env{}
 	e.Pl = pipeline.NewService(logger, db)
@@ -201,7 +263,7 @@ func NewEnvOn(db database.DB, life provisioning.LifecycleService, wrapPl func(*p
 	if wrapPl != nil {
 		e.PlSvc = wrapPl(e.Pl)
 	}
-	e.Prov = provisioning.NewService(db, logger, e.PlSvc, e.Conn, e.Proc, ConnPlugins{}, life, "")
+	e.Prov = provisioning.NewService(db, logger, e.PlSvc, e.Conn, e.Proc, ConnPlugins{}, life, pipelinesDir)
 	return e
 }
 
@@ -355,7 +417,10 @@ func rawProcs(ps []Proc) []config.Processor {
 func Render(p Pipe) config.Pipeline { return RenderID(PipelineID, p) }
 
 // RenderID is Render for a pipeline id of the caller's choice.
-func RenderID(id string, p Pipe) config.Pipeline {
+func RenderID(id string, p Pipe) config.Pipeline { return config.Enrich(RawID(id, p)) }
+
+// RawID is the config as a config file states it (not yet enriched).
+func RawID(id string, p Pipe) config.Pipeline {
 	size, thr := p.DLQ.Size, p.DLQ.Thr
 	raw := config.Pipeline{
 		ID:          id,
@@ -387,7 +452,123 @@ func RenderID(id string, p Pipe) config.Pipeline {
 			}
 		}
 	}
-	return config.Enrich(raw)
+	return raw
+}
+
+func yq(s string) string { return strconv.Quote(s) }
+
+func yamlMap(b *strings.Builder, ind, key string, m map[string]string) {
+	if len(m) == 0 {
+		return
+	}
+	keys := make([]string, 0, len(m))
+	for k := range m {
+		keys = append(keys, k)
+	}
+	sort.Strings(keys)
+	fmt.Fprintf(b, "%s%s:\n", ind, key)
+	for _, k := range keys {
+		fmt.Fprintf(b, "%s  %s: %s\n", ind, yq(k), yq(m[k]))
+	}
+}
+
+func yamlStr(b *strings.Builder, ind, key, v string) {
+	if v != "" {
+		fmt.Fprintf(b, "%s%s: %s\n", ind, key, yq(v))
+	}
+}
+
+func yamlProcs(b *strings.Builder, ind string, ps []config.Processor) {
+	if len(ps) == 0 {
+		return
+	}
+	fmt.Fprintf(b, "%sprocessors:\n", ind)
+	for _, p := range ps {
+		fmt.Fprintf(b, "%s  - id: %s\n", ind, yq(p.ID))
+		in := ind + "    "
+		yamlStr(b, in, "plugin", p.Plugin)
+		yamlStr(b, in, "condition", p.Condition)
+		if p.Workers != 0 {
+			fmt.Fprintf(b, "%sworkers: %d\n", in, p.Workers)
+		}
+		yamlMap(b, in, "settings", p.Settings)
+	}
+}
+
+// YAML writes a (raw) pipeline config as a version 2.2 pipeline config file;
+// empty fields are left out, as a person writing the file would.
+func YAML(c config.Pipeline) string {
+	var b strings.Builder
+	b.WriteString("version: \"2.2\"\npipelines:\n")
+	fmt.Fprintf(&b, "  - id: %s\n", yq(c.ID))
+	in := "    "
+	yamlStr(&b, in, "status", c.Status)
+	yamlStr(&b, in, "name", c.Name)
+	yamlStr(&b, in, "description", c.Description)
+	if len(c.Connectors) > 0 {
+		fmt.Fprintf(&b, "%sconnectors:\n", in)
+		for _, k := range c.Connectors {
+			fmt.Fprintf(&b, "%s  - id: %s\n", in, yq(k.ID))
+			kin := in + "    "
+			yamlStr(&b, kin, "type", k.Type)
+			yamlStr(&b, kin, "plugin", k.Plugin)
+			yamlStr(&b, kin, "name", k.Name)
+			yamlMap(&b, kin, "settings", k.Settings)
+			yamlProcs(&b, kin, k.Processors)
+		}
+	}
+	yamlProcs(&b, in, c.Processors)
+	fmt.Fprintf(&b, "%sdead-letter-queue:\n", in)
+	yamlStr(&b, in+"  ", "plugin", c.DLQ.Plugin)
+	yamlMap(&b, in+"  ", "settings", c.DLQ.Settings)
+	if c.DLQ.WindowSize != nil {
+		fmt.Fprintf(&b, "%s  window-size: %d\n", in, *c.DLQ.WindowSize)
+	}
+	if c.DLQ.WindowNackThreshold != nil {
+		fmt.Fprintf(&b, "%s  window-nack-threshold: %d\n", in, *c.DLQ.WindowNackThreshold)
+	}
+	return b.String()
+}
+
+// SplitID splits an enriched entity id ("pl2:c1:p3") into the pipeline id and
+// the model key: connector token (-1 for a pipeline-level processor or the
+// pipeline itself) and local processor token (-1 for a connector).
+func SplitID(id string) (pl string, conn int, proc int) {
+	segs := strings.Split(id, ":")
+	pl, conn, proc = segs[0], -1, -1
+	switch len(segs) {
+	case 2:
+		if strings.HasPrefix(segs[1], "c") {
+			conn = idTok("c", segs[1])
+		} else {
+			proc = idTok("p", segs[1])
+		}
+	case 3:
+		conn, proc = idTok("c", segs[1]), idTok("p", segs[2])
+	default:
+		if len(segs) > 3 {
+			conn, proc = 9999, 9999
+		}
+	}
+	return pl, conn, proc
+}
+
+// CoqKeyAny renders a store key of any pipeline as an ekey.
+func CoqKeyAny(key string) string {
+	switch {
+	case strings.HasPrefix(key, "pipeline:instance:"):
+		return "KP"
+	case strings.HasPrefix(key, "connector:instance:"):
+		_, c, _ := SplitID(strings.TrimPrefix(key, "connector:instance:"))
+		return fmt.Sprintf("(KC %d)", c)
+	case strings.HasPrefix(key, "processor:instance:"):
+		_, c, p := SplitID(strings.TrimPrefix(key, "processor:instance:"))
+		if c < 0 {
+			return fmt.Sprintf("(KR None %d)", p)
+		}
+		return fmt.Sprintf("(KR (Some %d) %d)", c, p)
+	}
+	return "(KC 9999)"
 }
 
 func lastSeg(id string) (string, string) {
